@@ -6,7 +6,8 @@ impl<T1: CodecLaws> CodecLaws for (T1,) {
         let t1 = self.0.tbl_after(t0);
         self.0.tbl_mono(t0);
     }
-    #[verifier::rlimit(60)]
+    #[verifier::rlimit(400)]
+    #[verifier::spinoff_prover]
     proof fn roundtrip(&self, t: Tbl, suffix: Seq<u8>) {
         let t0 = t;
         let e0 = self.0.enc(t0);
@@ -20,7 +21,8 @@ impl<T1: CodecLaws> CodecLaws for (T1,) {
         self.0.roundtrip(t0, r0);
         assert(dec_field::<T1>(w0, t0, false, false) == (Dec::Ok { v: self.0.gv(), n: e0.len(), t: t1 }));
     }
-    #[verifier::rlimit(300)]
+    #[verifier::rlimit(600)]
+    #[verifier::spinoff_prover]
     proof fn truncated(&self, t: Tbl, k: int) {
         let t0 = t;
         let e0 = self.0.enc(t0);
@@ -49,7 +51,8 @@ impl<T1: CodecLaws, T2: CodecLaws> CodecLaws for (T1, T2) {
         self.0.tbl_mono(t0);
         self.1.tbl_mono(t1);
     }
-    #[verifier::rlimit(60)]
+    #[verifier::rlimit(400)]
+    #[verifier::spinoff_prover]
     proof fn roundtrip(&self, t: Tbl, suffix: Seq<u8>) {
         let t0 = t;
         let e0 = self.0.enc(t0);
@@ -72,7 +75,8 @@ impl<T1: CodecLaws, T2: CodecLaws> CodecLaws for (T1, T2) {
         self.1.roundtrip(t1, r1);
         assert(dec_field::<T2>(w1, t1, false, false) == (Dec::Ok { v: self.1.gv(), n: e1.len(), t: t2 }));
     }
-    #[verifier::rlimit(300)]
+    #[verifier::rlimit(600)]
+    #[verifier::spinoff_prover]
     proof fn truncated(&self, t: Tbl, k: int) {
         let t0 = t;
         let e0 = self.0.enc(t0);
@@ -120,7 +124,8 @@ impl<T1: CodecLaws, T2: CodecLaws, T3: CodecLaws> CodecLaws for (T1, T2, T3) {
         self.1.tbl_mono(t1);
         self.2.tbl_mono(t2);
     }
-    #[verifier::rlimit(60)]
+    #[verifier::rlimit(400)]
+    #[verifier::spinoff_prover]
     proof fn roundtrip(&self, t: Tbl, suffix: Seq<u8>) {
         let t0 = t;
         let e0 = self.0.enc(t0);
@@ -152,7 +157,8 @@ impl<T1: CodecLaws, T2: CodecLaws, T3: CodecLaws> CodecLaws for (T1, T2, T3) {
         self.2.roundtrip(t2, r2);
         assert(dec_field::<T3>(w2, t2, false, false) == (Dec::Ok { v: self.2.gv(), n: e2.len(), t: t3 }));
     }
-    #[verifier::rlimit(300)]
+    #[verifier::rlimit(600)]
+    #[verifier::spinoff_prover]
     proof fn truncated(&self, t: Tbl, k: int) {
         let t0 = t;
         let e0 = self.0.enc(t0);
@@ -219,7 +225,8 @@ impl<T1: CodecLaws, T2: CodecLaws, T3: CodecLaws, T4: CodecLaws> CodecLaws for (
         self.2.tbl_mono(t2);
         self.3.tbl_mono(t3);
     }
-    #[verifier::rlimit(60)]
+    #[verifier::rlimit(400)]
+    #[verifier::spinoff_prover]
     proof fn roundtrip(&self, t: Tbl, suffix: Seq<u8>) {
         let t0 = t;
         let e0 = self.0.enc(t0);
@@ -260,7 +267,8 @@ impl<T1: CodecLaws, T2: CodecLaws, T3: CodecLaws, T4: CodecLaws> CodecLaws for (
         self.3.roundtrip(t3, r3);
         assert(dec_field::<T4>(w3, t3, false, false) == (Dec::Ok { v: self.3.gv(), n: e3.len(), t: t4 }));
     }
-    #[verifier::rlimit(300)]
+    #[verifier::rlimit(600)]
+    #[verifier::spinoff_prover]
     proof fn truncated(&self, t: Tbl, k: int) {
         let t0 = t;
         let e0 = self.0.enc(t0);
@@ -346,7 +354,8 @@ impl<T1: CodecLaws, T2: CodecLaws, T3: CodecLaws, T4: CodecLaws, T5: CodecLaws> 
         self.3.tbl_mono(t3);
         self.4.tbl_mono(t4);
     }
-    #[verifier::rlimit(60)]
+    #[verifier::rlimit(400)]
+    #[verifier::spinoff_prover]
     proof fn roundtrip(&self, t: Tbl, suffix: Seq<u8>) {
         let t0 = t;
         let e0 = self.0.enc(t0);
@@ -396,7 +405,8 @@ impl<T1: CodecLaws, T2: CodecLaws, T3: CodecLaws, T4: CodecLaws, T5: CodecLaws> 
         self.4.roundtrip(t4, r4);
         assert(dec_field::<T5>(w4, t4, false, false) == (Dec::Ok { v: self.4.gv(), n: e4.len(), t: t5 }));
     }
-    #[verifier::rlimit(300)]
+    #[verifier::rlimit(600)]
+    #[verifier::spinoff_prover]
     proof fn truncated(&self, t: Tbl, k: int) {
         let t0 = t;
         let e0 = self.0.enc(t0);
@@ -501,7 +511,8 @@ impl<T1: CodecLaws, T2: CodecLaws, T3: CodecLaws, T4: CodecLaws, T5: CodecLaws, 
         self.4.tbl_mono(t4);
         self.5.tbl_mono(t5);
     }
-    #[verifier::rlimit(60)]
+    #[verifier::rlimit(400)]
+    #[verifier::spinoff_prover]
     proof fn roundtrip(&self, t: Tbl, suffix: Seq<u8>) {
         let t0 = t;
         let e0 = self.0.enc(t0);
@@ -560,7 +571,8 @@ impl<T1: CodecLaws, T2: CodecLaws, T3: CodecLaws, T4: CodecLaws, T5: CodecLaws, 
         self.5.roundtrip(t5, r5);
         assert(dec_field::<T6>(w5, t5, false, false) == (Dec::Ok { v: self.5.gv(), n: e5.len(), t: t6 }));
     }
-    #[verifier::rlimit(300)]
+    #[verifier::rlimit(600)]
+    #[verifier::spinoff_prover]
     proof fn truncated(&self, t: Tbl, k: int) {
         let t0 = t;
         let e0 = self.0.enc(t0);
@@ -684,7 +696,8 @@ impl<T1: CodecLaws, T2: CodecLaws, T3: CodecLaws, T4: CodecLaws, T5: CodecLaws, 
         self.5.tbl_mono(t5);
         self.6.tbl_mono(t6);
     }
-    #[verifier::rlimit(60)]
+    #[verifier::rlimit(400)]
+    #[verifier::spinoff_prover]
     proof fn roundtrip(&self, t: Tbl, suffix: Seq<u8>) {
         let t0 = t;
         let e0 = self.0.enc(t0);
@@ -752,7 +765,8 @@ impl<T1: CodecLaws, T2: CodecLaws, T3: CodecLaws, T4: CodecLaws, T5: CodecLaws, 
         self.6.roundtrip(t6, r6);
         assert(dec_field::<T7>(w6, t6, false, false) == (Dec::Ok { v: self.6.gv(), n: e6.len(), t: t7 }));
     }
-    #[verifier::rlimit(300)]
+    #[verifier::rlimit(600)]
+    #[verifier::spinoff_prover]
     proof fn truncated(&self, t: Tbl, k: int) {
         let t0 = t;
         let e0 = self.0.enc(t0);
@@ -895,7 +909,8 @@ impl<T1: CodecLaws, T2: CodecLaws, T3: CodecLaws, T4: CodecLaws, T5: CodecLaws, 
         self.6.tbl_mono(t6);
         self.7.tbl_mono(t7);
     }
-    #[verifier::rlimit(60)]
+    #[verifier::rlimit(400)]
+    #[verifier::spinoff_prover]
     proof fn roundtrip(&self, t: Tbl, suffix: Seq<u8>) {
         let t0 = t;
         let e0 = self.0.enc(t0);
@@ -972,7 +987,8 @@ impl<T1: CodecLaws, T2: CodecLaws, T3: CodecLaws, T4: CodecLaws, T5: CodecLaws, 
         self.7.roundtrip(t7, r7);
         assert(dec_field::<T8>(w7, t7, false, false) == (Dec::Ok { v: self.7.gv(), n: e7.len(), t: t8 }));
     }
-    #[verifier::rlimit(300)]
+    #[verifier::rlimit(600)]
+    #[verifier::spinoff_prover]
     proof fn truncated(&self, t: Tbl, k: int) {
         let t0 = t;
         let e0 = self.0.enc(t0);
